@@ -64,6 +64,41 @@ def system_level(ctx, binary, projects, limit):
     return n_run, n_both, n_dump
 
 
+def recompile_over_existing(ctx, binary, projects, limit):
+    """`compile` writes the bytecode file in place: compiling a SHORTER program over the .mmm of a longer one
+    (a multi-step history) must still give a file that executes like `run`."""
+    base = ctx.mktemp()
+    singles = [p for p in projects if len(p["files"]) == 1][:limit * 3]
+    longest = max(singles, key=lambda p: len(list(p["files"].values())[0])) if singles else None
+    n = 0
+    if longest is None:
+        return 0
+
+    def one(proj):
+        e = proj["entry"]
+        d = programs.materialize({"files": {e: list(longest["files"].values())[0]}}, base)
+        c0 = programs.run_bin(binary, ["compile", e, "--quick"], d)
+        with open(os.path.join(d, e), "w", encoding="utf8") as f:
+            f.write(proj["files"][e])
+        c1 = programs.run_bin(binary, ["compile", e, "--quick"], d)
+        r2 = programs.run_bin(binary, ["execute", e[:-3] + ".mmm"], d) if c1[0] == 0 else None
+        d1 = programs.materialize(proj, base)
+        r1 = programs.run_bin(binary, ["run", e, "-q"], d1)
+        shutil.rmtree(d, ignore_errors=True)
+        shutil.rmtree(d1, ignore_errors=True)
+        return proj, c0, c1, r1, r2
+    for proj, c0, c1, r1, r2 in programs.pmap(one, [p for p in singles if p is not longest][:limit]):
+        if c0[0] != 0 or c1[0] != 0 or r2 is None or 124 in (r1[0], r2[0]):
+            continue
+        n += 1
+        if programs.exit_class(r1[0]) != programs.exit_class(r2[0]) or not programs.same_output(r1[1], r2[1], proj):
+            ctx.report("recompile-over-existing-file", "after compiling %s over the bytecode file of a longer program, execute differs from run (exit %s vs %s)" % (proj["name"], r2[0], r1[0]),
+                       {"project": proj, "previous_program": longest["name"], "run": {"rc": r1[0], "stdout": r1[1][-800:]},
+                        "execute": {"rc": r2[0], "stdout": r2[1][-800:], "stderr": r2[2][-600:]},
+                        "how": "compile <long program> to x.mmm; replace x.ms by this program; compile again; execute x.mmm"})
+    return n
+
+
 def run(ctx):
     ok = core.coq_props(ctx, "Props/C04.v")
     binary = core.build_repo()
@@ -113,6 +148,7 @@ def run(ctx):
     projects = programs.corpus_from_tests() + programs.corpus_from_examples()
     ctx.rng.shuffle(projects)
     n_run, n_both, n_dump = system_level(ctx, binary, projects, 120 if ctx.quick() else len(projects))
+    ctx.cov["programs_recompiled_over_existing_file"] = recompile_over_existing(ctx, binary, projects, 25 if ctx.quick() else 150)
     ctx.cov["programs_run_both_ways"] = n_both
     ctx.cov["programs_tried"] = n_run
     ctx.cov["traces_validated_against_impl"] = n_dump
